@@ -137,7 +137,7 @@ def run(ctx):
                                    # the same with three-cell pages: a long INSERT then allocates page after page (append) while every
                                    # resident page is dirty, so the refusal - or the overflow - happens at an allocation, not at a fetch
                                    [dict(seed=ctx.seed * 1000 + 970 + i, n=(150 if ctx.quick() else 400), caps=[3, 3], cache=k, pcrash=0, pflush=0, wal=False,
-                                         maxrows=30, bias="grow") for i, k in enumerate([10, 14] if ctx.quick() else [8, 10, 12, 14, 18])])
+                                         maxrows=30, bias="grow") for i, k in enumerate([10, 14] if ctx.quick() else [10, 11, 12, 14, 18])])   # (CREATE TABLE alone dirties up to 9 three-cell pages)
         cov["store_level_write_faults"] = dict(runs=agg["runs"], statements=agg["statements"], flushes=agg["flushes"],
                                                flushes_failed=agg.get("flushes_failed", 0), clean_pages_evicted_after=agg.get("evicted_after_failed_flush", 0),
                                                cache_full_statements=agg.get("cachefull_statements_restarted", 0))
